@@ -30,6 +30,7 @@ type C17Req struct {
 	Cl     bool   `json:"cl"`
 	Acc    string `json:"acc"`
 	Method string `json:"method"`
+	Late   bool   `json:"late"` // response headers set after the informational WriteHeader calls
 }
 
 type C17Mode struct {
@@ -86,6 +87,9 @@ type C17Plan struct {
 	Chunks  [][]byte
 	Inner   []byte // concatenation of the chunks of all Write ops
 	EchoVal string
+	// RefStatus is the status net/http delivered for the same script WITHOUT the gzip wrapper
+	// (0 = no reference run was made); when present it is the expected status
+	RefStatus int
 }
 
 func c17Pick(xs []string, r *rand.Rand) string { return xs[r.Intn(len(xs))] }
@@ -163,20 +167,33 @@ func (p *C17Plan) SetRequest(r *http.Request) {
 // Serve is the scripted inner handler: response headers first, then the ops in order.  before(i)
 // is called before op i and before the return (i = len(ops)); it may block (lockstep replay).
 func (p *C17Plan) Serve(w http.ResponseWriter, before func(i int)) {
-	if p.CT != "" {
-		w.Header().Set("Content-Type", p.CT)
+	headersSet := false
+	setHeaders := func() {
+		if headersSet {
+			return
+		}
+		headersSet = true
+		if p.CT != "" {
+			w.Header().Set("Content-Type", p.CT)
+		}
+		if p.CE != "" {
+			w.Header().Set("Content-Encoding", p.CE)
+		}
+		if p.CL >= 0 {
+			w.Header().Set("Content-Length", strconv.Itoa(p.CL))
+		}
+		w.Header().Set("X-C17-Echo", p.EchoVal)
 	}
-	if p.CE != "" {
-		w.Header().Set("Content-Encoding", p.CE)
+	if !p.H.Req.Late {
+		setHeaders()
 	}
-	if p.CL >= 0 {
-		w.Header().Set("Content-Length", strconv.Itoa(p.CL))
-	}
-	w.Header().Set("X-C17-Echo", p.EchoVal)
 	k := 0
 	for i, op := range p.H.Ops {
 		if before != nil {
 			before(i)
+		}
+		if op.Ev == "w" || op.Code >= 200 {
+			setHeaders() // late: just before the first final op
 		}
 		switch op.Ev {
 		case "wh":
@@ -189,6 +206,23 @@ func (p *C17Plan) Serve(w http.ResponseWriter, before func(i int)) {
 	if before != nil {
 		before(len(p.H.Ops))
 	}
+	setHeaders()
+}
+
+// NeedsReference: scripts with several WriteHeader calls (informational ones, repeated final ones)
+// get a reference run without the gzip wrapper, so that the status is judged against what net/http
+// itself delivers for the script.
+func (p *C17Plan) NeedsReference() bool {
+	n := 0
+	for _, op := range p.H.Ops {
+		if op.Ev == "wh" {
+			n++
+			if op.Code < 200 {
+				return true
+			}
+		}
+	}
+	return n >= 2
 }
 
 type C17Fault struct {
@@ -203,8 +237,12 @@ func (p *C17Plan) Judge(status int, hdr http.Header, raw []byte, readErr error) 
 		faults = append(faults, C17Fault{clause, fmt.Sprintf(format, a...)})
 	}
 	h := p.H
-	if status != h.Status {
-		add("status", "status %d, the inner handler's status is %d", status, h.Status)
+	want := h.Status
+	if p.RefStatus != 0 {
+		want = p.RefStatus
+	}
+	if status != want {
+		add("status", "status %d, the inner handler's status is %d", status, want)
 	}
 	ce := hdr.Get("Content-Encoding")
 	allowed := func(m string) *C17Mode {
@@ -290,8 +328,14 @@ func c17FirstDiff(a, b []byte) int {
 
 // Features is the feature record of a failing handler.
 func (p *C17Plan) Features(sub, clause string) map[string]any {
+	info := false
+	for _, op := range p.H.Ops {
+		if op.Ev == "wh" && op.Code < 200 {
+			info = true
+		}
+	}
 	return map[string]any{"sub": sub, "clause": clause, "ae": p.H.Req.Ae, "ct": p.H.Req.Ct, "encoded": p.H.Req.Enc != "",
-		"sse": p.H.Req.Acc == "sse", "method": p.H.Req.Method}
+		"sse": p.H.Req.Acc == "sse", "method": p.H.Req.Method, "informational": info, "late_headers": p.H.Req.Late}
 }
 
 // Describe renders the concrete request/response of the plan.
@@ -306,6 +350,10 @@ func (p *C17Plan) Describe() string {
 			k++
 		}
 	}
-	return fmt.Sprintf("%s Accept-Encoding=%q Accept=%q; inner: Content-Type=%q Content-Encoding=%q Content-Length=%d ops=[%s]",
-		p.Method, p.AE, p.Accept, p.CT, p.CE, p.CL, strings.Join(ops, ", "))
+	when := ""
+	if p.H.Req.Late {
+		when = " (headers set after the informational calls)"
+	}
+	return fmt.Sprintf("%s Accept-Encoding=%q Accept=%q; inner: Content-Type=%q Content-Encoding=%q Content-Length=%d%s ops=[%s]",
+		p.Method, p.AE, p.Accept, p.CT, p.CE, p.CL, when, strings.Join(ops, ", "))
 }
